@@ -16,6 +16,11 @@ CHECKS = {
          "Generated histories (path spellings, child views, four root/child configurations) run step by step on the memory backend, on a disk filespace in a fresh temp directory and on the tree model; where the stated preconditions hold the disk result and whole disk tree must equal the memory backend's after every step; elsewhere both backends must not panic and must change nothing off the addressed paths; files next to and above the disk root are hashed after every step. Held on the histories executed.",
          "trusts the model's classification of preconditions; OS features (symlinks, permissions) and removing the root are not generated",
          "DESIGN.md §5 C02"),
+ "C03": ("exploration",
+         "runtime jail monitor: exhaustive hostile-path enumeration per view kind with before/after snapshots of everything outside the view root (underlying tree, host directory), canary tokens in returned data and listings",
+         "For 15 view configurations (memory/disk root and child, depth-3 views, encrypted, read-only, sub-path, cache root/child/depth-3) every path up to a segment bound over {name, jail, ., .., empty} (with and without leading '/'), plus random longer ones, is given to all 16 operations and to both arguments of the copy operations; after each call the outside of the view (walked through the underlying filespace, hashed host directory for disk, after Commit for caches) must be unchanged, no outside token may come back, no outside-only name may be listed and an escaping path may only be answered as its clamped inside resolution. Held on the enumerated paths and configurations.",
+         "accepts both 'rejected' and 'resolved inside the root'; removing the view's own root through the view is not counted as reaching outside",
+         "DESIGN.md §5 C03"),
  "C17": ("exploration",
          "runtime oracle over bounded-exhaustive + random inputs (reference splitter / render-split round trip)",
          "ReadArguments is run on every byte string up to a length bound over the 9 significant bytes (no panic, bounded reads, exact expected result on the quote-free sub-language) and on scripts rendered from random argument lists by a reference quoting function; InjectArgs mapping compared with an independent expectation. Held on the enumerated/sampled inputs only.",
